@@ -264,6 +264,7 @@ CHECKS = {
    {"pkg": "core", "fn": "VerifH_DescriptionNormal", "quick": {"N": 4, "ALPHA": 0}, "thorough": {"N": 5, "ALPHA": 0}},
    {"pkg": "core", "fn": "VerifH_DescriptionNormal", "quick": {"N": 5, "ALPHA": 1}, "thorough": {"N": 6, "ALPHA": 1}},
    {"pkg": "core", "fn": "VerifH_DescriptionParens", "quick": {"N": 6}, "thorough": {"N": 8}},
+   doc("VerifH_DescriptionDoc", {"N": 4}, {"N": 6}),
   ],
   "assumptions": ["description texts: ASCII without NUL, VT, FF", "regexp engine not encoded: (*Regexp).ReplaceAllString is an engine intrinsic for the single pattern \\s+ (Perl class [\\t\\n\\f\\r ])", "ASCII texts"],
   "not_decided": ["scanner/normaliser agreement on where a description ends", "non-ASCII whitespace (VT, FF, NEL, NBSP are outside the statement's alphabet)", "texts longer than N bytes"],
